@@ -425,6 +425,7 @@ def _c10(tier, rng):
     yield ("v3 well-formed vectors (encode, String, re-decode)", S.accepted3_ops(rng, n), False)
     yield ("v2 canonical vectors (encode = input, String, re-decode)", S.accepted2_ops(rng, n), False)
     yield ("v3 edit neighbourhood (accepted members)", S.parser3_ops(rng, 6 if tier == "quick" else 60, False, nrandom=200), False)
+    yield ("v2 edit neighbourhood incl. group reorder (accepted members must encode to their input)", S.parser2_ops(rng, 8 if tier == "quick" else 80, tier != "quick", nrandom=200), False)
     yield ("every v3 base vector at the temporal and environmental decoders (nothing optional written)", S.base3_all(kind="D3", levels=(1, 2)), True)
     yield ("decoder objects used twice (safe first use)", S.reuse_ops_safe(rng, n // 6), False)
 
